@@ -262,7 +262,7 @@ def run(c):
     for bi, b in enumerate(bins):
         tr = os.path.join(c.work, "record_trace_%d.ndjson" % bi)
         outp = os.path.join(c.work, "record_%d.json" % bi)
-        budget = (240000 if bi == 0 else 120000) if thorough else (10000 if bi == 0 else 5000)
+        budget = (120000 if bi == 0 else 60000) if thorough else (10000 if bi == 0 else 5000)
         rc, so = c.sh([b, "record", tr, outp], timeout=3000, env={"VERIF_EDITS": budget})
         if rc != 0:
             c.fail_tool("record harness failed rc=%s %s" % (rc, so[-300:]))
